@@ -14,6 +14,9 @@
            the rule attached to each field is compatible with its declared shape: C20_declared_shapes_enforced
            (finite, generated table); the two fields without a rule: C20_declared_shapes_enforced_refuted [finding]
        - return value per driver: C20_return_result_by_driver                                              [full]
+       - WavefunctionProperties as a whole, acceptance as an IFF: C20_wfn_accepted_iff (accepted iff no unknown key, basis
+         and restricted well-typed, every ruled array fits the rule for the object's own nbf, every pointer names an
+         EARLIER-declared field that is present and not None); refusal field by field: C20_wfn_rejects_bad_field    [full]
        - at the public constructor AtomicResult(...): C20_atomic_result_is_its_stages (accepted iff the protocols
          are valid and the four governed fields pass their stage; error classes)                          [full]
     2. "keeps a basis set's function count equal to the count implied by its shells"
@@ -36,12 +39,13 @@
            C20_stdout_native_protocols, C20_trajectory_idempotent_total, C20_properties_whole_object (2nd),
            C20_basis_revalidation, C20_atomic_revalidation (whole AtomicResult, with the hypothesis that
            C20_revalidation_identity_refuted shows necessary)                                   [full / finding]
-    Only correspondence / oracle (not a theorem): acceptance side of WavefunctionProperties ("all arrays fit and
-    all pointers have targets => accepted" as an iff), memory layouts, pydantic plumbing, OptimizationResult
+    Only correspondence / oracle (not a theorem): memory layouts and element types of supplied arrays (Fortran / strided /
+    integer / big-endian / float32), the basis arriving as plain data or as an object, call histories (no state is shared
+    between constructions; the caller's arrays and earlier results are left alone), pydantic plumbing, OptimizationResult
     fields other than `trajectory`. *)
 From Coq Require Import ZArith List String Bool.
 Require Import QV.Common.Outcome QV.Gen.KeepLists QV.Model.Results QV.Model.Basis QV.Proofs.Results QV.Proofs.Basis
-  QV.Proofs.ResultsValidate QV.Proofs.ResultsCompose QV.Proofs.ResultsPublic.
+  QV.Proofs.ResultsValidate QV.Proofs.ResultsCompose QV.Proofs.ResultsPublic QV.Proofs.ResultsAccept.
 Import ListNotations.
 Local Open Scope string_scope.
 Local Open Scope list_scope.
@@ -273,6 +277,42 @@ Theorem C20_wfn_validation_keeps_payload : forall w w', wfn_validate w = Ok w' -
             end.
 Proof. exact wfn_validate_payload. Qed.
 
+(** WavefunctionProperties built from ANY dictionary w is accepted  iff  w is acceptable, where [wfn_acceptable]
+    (Proofs/ResultsAccept.v) reads the class field by field with no accumulator and no error flag: no unknown key; `basis` a
+    basis set and `restricted` a bool; every array with a reshape rule absent or an array whose size fits the rule for the
+    object's own nbf (explicit None is refused: the validator runs on it); arrays without a rule absent / None / any array; every
+    return pointer absent or a string naming a field declared EARLIER in the generated table that is present and not None. *)
+Theorem C20_wfn_accepted_iff : forall w, (exists w', wfn_validate w = Ok w') <-> wfn_acceptable w = true.
+Proof. exact wfn_validate_accepts_iff. Qed.
+(** satisfiable and not vacuous: fitting / misfitting Fock matrix, pointer to an absent array, to an earlier and to a later pointer *)
+Example C20_ex_acceptable :
+  wfn_acceptable (ex_w [1; 2; 3; 4] "scf_fock_a") = true /\ wfn_acceptable (ex_w [1; 2; 3] "scf_fock_a") = false
+  /\ wfn_acceptable (ex_w [1; 2; 3; 4] "scf_density_a") = false
+  /\ wfn_acceptable (ex_w [1; 2; 3; 4] "orbitals_a") = true /\ wfn_acceptable (ex_w [1; 2; 3; 4] "eigenvalues_a") = false.
+Proof. exact ex_acceptable. Qed.
+(** every array field is declared before every return pointer in the generated table: a pointer naming an ARRAY field is
+    accepted iff that array is present and not None ("the arrays they point to") *)
+Example C20_ex_arrays_before_pointers : arrays_before_pointers false wfn_fields = true.
+Proof. exact wfn_arrays_before_pointers. Qed.
+
+(** The refusing half, field by field and whatever the other fields hold: ONE field that is not ok (given the names declared
+    before it) makes the whole dictionary a validation error; in particular a return pointer whose target is absent or None,
+    and a ruled array that does not fit the rule for the object's own nbf or is given as something that is not an array. *)
+Theorem C20_wfn_rejects_bad_field :
+  (forall w nbf pre f post, wfn_fields = pre ++ f :: post -> dget "basis" w = Some (WBasis nbf) ->
+     field_ok w nbf (keys pre) f = false -> wfn_validate w = Err Validation)
+  /\ (forall w nbf name s, In (name, FPtr) wfn_fields -> dget "basis" w = Some (WBasis nbf) ->
+     dget name w = Some (WStr s) -> nonnone (dget s w) = false -> wfn_validate w = Err Validation)
+  /\ (forall w nbf name t d, In (name, FArr (Some t) d) wfn_fields -> dget "basis" w = Some (WBasis nbf) ->
+     match dget name w with
+     | Some (WArr a) => fits a (inst (if uses_nbf t then nbf else 0) 0 t) = false
+     | Some _ => True
+     | None => False
+     end -> wfn_validate w = Err Validation).
+Proof.
+  split; [exact wfn_validate_rejects_field|]. split; [exact wfn_validate_rejects_dangling|exact wfn_validate_rejects_unfit].
+Qed.
+
 (** The public constructor AtomicResult(...), protocols supplied or defaulted: accepted with result o  iff  the
     protocols are valid and each of the four governed fields passes its stage with the corresponding field of o;
     a refusal is a validation error, except the KeyError of the unguarded `values['protocols']` in the
@@ -438,6 +478,8 @@ Print Assumptions C20_wfn_stage_idempotent.
 Print Assumptions C20_atomic_revalidation.
 Print Assumptions C20_wfn_arrays_shaped_or_rejected.
 Print Assumptions C20_wfn_validation_keeps_payload.
+Print Assumptions C20_wfn_accepted_iff.
+Print Assumptions C20_wfn_rejects_bad_field.
 Print Assumptions C20_atomic_result_is_its_stages.
 Print Assumptions C20_atomic_wfn_kept_exactly.
 Print Assumptions C20_atomic_other_fields.
